@@ -167,7 +167,7 @@ def rules(ctx):
     ctx.rule('R02.10', "merged unseeded temporaries cannot allocate ancillas", floor=2)
     ctx.rule('R02.11', "a linear penalty is added only under a guard forcing its sign", floor=5)
     ctx.rule('R02.13', "the receiving model is changed only by += / -= of penalty terms, the record helpers, nested "
-                       "constraint methods and ancilla takes - never by update / item assignment / other operators", floor=8)
+                       "constraint methods and ancilla takes - never by update / item assignment / other operators", floor=6)
     ctx.rule('R02.14', "the constraint record is not shared between a model and its copies", floor=2)
     ctx.rule('R02.16', "the weight enters the penalty only linearly (no floor division / modulo / comparison / coercion)", floor=4)
     ctx.rule('R02.15', "a relational method returns early only for lam == 0 or after a special-case penalty was merged", floor=6)
@@ -177,7 +177,12 @@ def rules(ctx):
     ctx.rule('R02.17', "a special-case branch that reads the polynomial's terms by position or through the inverted "
                        "value->key table is guarded by the exact number of terms", floor=5)
     meths = rel_methods(P)
-    arity_guards(ctx, 'R02.17', [P.func('_pcbo._special_constraints_eq_zero'), P.func('_pcbo._special_constraints_le_zero')])
+    arity_guards(ctx, 'R02.17', P.opt_funcs(['_pcbo._special_constraints_eq_zero', '_pcbo._special_constraints_le_zero']) or
+                 [meths['eq'], meths['le']])
+    if not P.has_func('_pcbo._special_constraints_eq_zero'):
+        arity_guards(ctx, 'R02.17', [meths['eq']])
+    if not P.has_func('_pcbo._special_constraints_le_zero'):
+        arity_guards(ctx, 'R02.17', [meths['le']])
 
     # ---------------------------------------------------------------- R02.1
     record_helpers(ctx, 'R02.1')
@@ -213,7 +218,7 @@ def rules(ctx):
 
     # ---------------------------------------------------------------- R02.7
     n7 = 0
-    for fn in list(meths.values()) + [P.func('_pcbo._special_constraints_le_zero')]:
+    for fn in list(meths.values()) + P.opt_funcs(['_pcbo._special_constraints_le_zero']):
         g = cfg_of(fn.node)
         flag = 'log_trick'
         for loop in [n for n in ast.walk(fn.node) if isinstance(n, ast.For)]:
@@ -280,11 +285,11 @@ def rules(ctx):
         penalty_sign(ctx, 'R02.11', fn)
 
     # ---------------------------------------------------------------- R02.12
-    slack_guards(ctx, 'R02.12', list(meths.values()) + [P.func('_pcbo._special_constraints_le_zero')])
+    slack_guards(ctx, 'R02.12', list(meths.values()) + P.opt_funcs(['_pcbo._special_constraints_le_zero']))
 
     # ---------------------------------------------------------------- R02.13 / R02.14
-    merge_discipline(ctx, 'R02.13', list(meths.values()) + [P.func('_pcbo._special_constraints_eq_zero'),
-                                                            P.func('_pcbo._special_constraints_le_zero')])
+    merge_discipline(ctx, 'R02.13', list(meths.values()) + P.opt_funcs(['_pcbo._special_constraints_eq_zero',
+                                                                        '_pcbo._special_constraints_le_zero']))
     record_not_shared(ctx, 'R02.14')
     for rel, fn in meths.items():
         early_exits(ctx, 'R02.15', fn)
@@ -317,7 +322,12 @@ def early_exits(ctx, rid, fn):
             else:
                 names |= names_in(t2)
         if names - allowed:
-            bad.append(r)
+            # ... unless the special-case penalty was merged on the way (the special-form detection inlined here)
+            sn_ = ctx.res.self_name(fn)
+            merges = [m for m in g.stmts() if isinstance(m, ast.AugAssign) and is_name(m.target, sn_)
+                      and isinstance(m.op, (ast.Add, ast.Sub))]
+            if not any(g.dominates([m], r) for m in merges):
+                bad.append(r)
     ctx.inst(rid, fn, 'early returns of %s' % fn.name, not bad,
              "early returns only for lam == 0 / after a special-case penalty" if not bad else
              "the early return at line %s is decided by %s, i.e. not only by the weight, the bounds of P and the options: "
